@@ -8,6 +8,21 @@ while decoding is logged by the interpreter and checked against a whitelist."""
 import builtins
 import sqlite3
 import struct
+import sys
+
+# an application exception class derived from PyroError that exists BEFORE Pyro5.serializers is imported (applications
+# define their error classes first and import the rest of Pyro later): it is not part of the closed set
+from Pyro5 import errors as _early_errors
+
+
+class ApplicationBillingError(_early_errors.PyroError):
+    def __init__(self, *args):
+        APP_CONSTRUCTED.append(args)
+        _early_errors.PyroError.__init__(self, *args)
+
+
+APP_CONSTRUCTED = []
+APP_CLASS_DEFINED_BEFORE_SERIALIZERS = "Pyro5.serializers" not in sys.modules
 
 from Pyro5 import serializers, errors, core, client, server
 from pysym.runner import Spec
